@@ -43,9 +43,58 @@ class Keys(ChainBuild):
     aspects = ('keys',)
 
 
+class NameModeLayout(Suite):
+    """persistence by config name (parameter_mode=False): where result, run record and log of a task are stored, for
+    config names with and without dots and for data classes with and without a file extension - against the layout
+    of the pinned release written out here (result <task dir>/<name>[.ext]; side files named after the result path
+    without its last suffix). Runtime check: the model's locations are those of parameter mode."""
+    name = 'name_mode_layout'
+    model = ''
+
+    def gen(self, rng, tier):
+        return [dict(cfg=c, data=d) for c in ('exp', 'exp.v2', 'a.b.c', 'run_1') for d in ('json', 'dir', 'memory')]
+
+    def run_impl(self, case):
+        from pathlib import Path
+        from .. import pipeline as pl
+        from ..suites_chain import K
+        classes = [dict(K(0, 'Leaf', group='g', data=case['data']), name='leaf')]
+        full = dict(classes=classes, files={f'{case["cfg"]}.json': {'tasks': ['@M.*']}}, base={'file': f'{case["cfg"]}.json'}, context=None)
+        with pl.workspace(full) as (d, mod):
+            ch = pl.build_config(full, mod).chain(parameter_mode=False)
+            t = ch['leaf']
+            t.value
+            files = sorted(str(p.relative_to('data')) for p in Path('data').rglob('*') if p.is_file())
+            top = sorted(str(p.relative_to('data')) for p in Path('data/g/leaf').iterdir())
+            has_log, has_info = t.log is not None, t.run_info is not None
+            return dict(files=files, top=top, has_log=has_log, has_info=has_info)
+
+    def oracle(self, case, obs):
+        if 'unexpected_exception' in obs:
+            return f'unexpected exception {obs["unexpected_exception"]}: {obs["text"]}'
+        from pathlib import PurePosixPath
+        ext = {'json': '.json', 'dir': '', 'memory': ''}[case['data']]
+        result = PurePosixPath('g/leaf') / (case['cfg'] + ext)
+        want = {str(result.parent / f'{result.stem}.run_info.yaml'), str(result.parent / f'{result.stem}.log')}
+        if case['data'] != 'memory':
+            want.add(str(result))
+        got = set(obs['top'])
+        if got != want:
+            return f'{case}: the task directory holds {sorted(got)}, the layout of the pinned release is {sorted(want)}'
+        if not (obs['has_log'] and obs['has_info']):
+            return f'{case}: run record / log written by the run are not found again (log {obs["has_log"]}, record {obs["has_info"]})'
+        return None
+
+    def nontrivial(self, case, obs):
+        return '.' in case['cfg']
+
+    def key(self, case):
+        return repr(case)
+
+
 class C12(Prop):
     pid = 'C12'
-    suites = [Registry(), Keys(), Sha()]
+    suites = [Registry(), Keys(), Sha(), NameModeLayout()]
     trusted_base = ['SHA-256: the Gallina implementation is checked against FIPS vectors (kernel) and hashlib (correspondence)',
                     'the frozen re-implementation harness/tcv/oracle_frozen.py and the golden literals were produced at the pinned commit']
     assumptions = ['parameter mode; name mode (key = config name) is exercised by the C20 harness']
